@@ -287,13 +287,17 @@ def r4c_comparisons(ctx, cls, mod, methods, rid='R4c'):
             continue
         fn = mod.func('SandboxResult.' + name)
         ctx.analysed_function(mod, fn)
-        for other_proxied in (False, True):
+        for other_proxied in (False, True, 'the proxy itself'):
             printed = []
             fd = new_fd(ctx, mod, printed)
             fd.compare_hook = lambda o, a, b: ('cmp', names[type(o)], a, b) if type(o) in names else NotImplemented
             val, oth = make_val('value', {}), make_val('other', {})
             me = make_proxy(val)
-            arg = make_proxy(oth) if other_proxied else oth
+            if other_proxied == 'the proxy itself':
+                # r == r for a result that is not equal to itself (NaN): the value's own comparison decides
+                arg, oth = me, val
+            else:
+                arg = make_proxy(oth) if other_proxied else oth
             try:
                 got = fd.call_function(fn, [arg], bound_self=me)
             except Raised as e:
@@ -303,7 +307,8 @@ def r4c_comparisons(ctx, cls, mod, methods, rid='R4c'):
             want = ('cmp', op, val, oth)
             ok = isinstance(got, tuple) and len(got) == 4 and got[0] == 'cmp' and got[1] == op and got[2] is val \
                 and got[3] is oth
-            ctx.check(ok, rid, 'SandboxResult.%s%s' % (name, ':proxied-other' if other_proxied else ''), mod, fn,
+            ctx.check(ok, rid, 'SandboxResult.%s%s' % (name, ':same-proxy' if other_proxied == 'the proxy itself' else
+                                                       ':proxied-other' if other_proxied else ''), mod, fn,
                       "%s does not return `value %s other` on the unwrapped operands (got %s)" % (
                           name, {'eq': '==', 'ne': '!=', 'lt': '<', 'le': '<=', 'gt': '>', 'ge': '>='}[op],
                           _show(got)),
@@ -458,6 +463,43 @@ def r7_operators_for_containers(ctx, cls, mod):
                   "with only __iter__/__getitem__) raises AttributeError although `in` works on the value")
 
 
+def r7b_membership(ctx, cls, mod):
+    """__contains__ executed abstractly: the answer - True, False, or the TypeError the value raises for an item it
+    cannot hold - is the value's own."""
+    fn = [n for n in cls.body if isinstance(n, ast.FunctionDef) and n.name == '__contains__']
+    if not fn:
+        return
+    fn = fn[0]
+    for behaviour in (True, False, 'TypeError'):
+        for item_proxied in (False, True):
+            printed = []
+            fd = new_fd(ctx, mod, printed)
+            val, item = make_val('value', {}), make_val('item', {})
+            seen = []
+
+            def hook(o, a, b):
+                if isinstance(o, (ast.In, ast.NotIn)):
+                    seen.append((a, b))
+                    if behaviour == 'TypeError':
+                        raise Raised('TypeError', "unhashable type: 'list'")
+                    return behaviour if isinstance(o, ast.In) else not behaviour
+                return NotImplemented
+            fd.compare_hook = hook
+            me = make_proxy(val)
+            try:
+                got = fd.call_function(fn, [make_proxy(item) if item_proxied else item], bound_self=me)
+            except Raised as e:
+                got = e.kind
+            except Inconclusive as e:
+                raise AnalysisError("C16 R7: __contains__ outside the decidable fragment: %s" % e)
+            ok = got == behaviour and len(seen) == 1 and seen[0][1] is val and (seen[0][0] is item or item_proxied)
+            ctx.check(ok, 'R7', 'SandboxResult.__contains__[%s%s]' % (behaviour, ',proxied item' if item_proxied else ''),
+                      mod, fn, "`item in value` %s; `item in proxy` gives %r" % (
+                          'raises TypeError' if behaviour == 'TypeError' else 'is %r' % behaviour, got),
+                      "[1, 2] in call('seen_points') for a set result returns False; on the real value it raises "
+                      "TypeError (unhashable type)")
+
+
 ROUNDING = {'__floor__': 'math.floor', '__ceil__': 'math.ceil', '__trunc__': 'math.trunc', '__round__': 'round'}
 
 
@@ -545,6 +587,7 @@ def run(ctx):
     r6_len(ctx, mod)
     r8_value_access(ctx, sym, mod)
     r7_operators_for_containers(ctx, cls, mod)
+    r7b_membership(ctx, cls, mod)
     r9_inplace(ctx, sym, cls, mod)
     ctx.assume("value classes whose __op__ and reflected __rop__ disagree with each other are not modelled")
     ctx.assume("CPython's binary operator protocol (own method, then reflected method, then TypeError) is the oracle")
